@@ -3,7 +3,7 @@ from props.fsmlib import *
 
 def cases(tier):
     L = []
-    fams = ['f5', 'foroot'] if tier == 'quick' else ['f5', 'foroot', 'fsel', 'f10', 'fo2']
+    fams = ['f5', 'foroot', 'fw5'] if tier == 'quick' else ['f5', 'foroot', 'fsel', 'f10', 'fo2', 'fw5']
     T = 1 if tier == 'quick' else 3
     for fam in fams:
         o = dict(sublimit=2, callbacks=['guard', 'life', 'select'], act=['guard'], kinds=0x9e)
